@@ -44,6 +44,7 @@ func cmdApi(args []string) int {
 	cls := fs.String("cls", "", "one: argument class")
 	deadline := fs.Int("deadline", 1500, "total: per-call deadline (ms)")
 	asyncReps := fs.Int("asyncreps", 1, "help: repetitions of every async helper case (jittered)")
+	maxList := fs.Int("maxlist", 2, "help: max length of the member lists of the Sync helpers")
 	fs.Parse(args)
 	apidrv.SetSeed(*seed)
 
@@ -73,6 +74,7 @@ func cmdApi(args []string) int {
 			apidrv.RunCopy(o)
 		case "help":
 			apidrv.RunHelpers(o, *seed)
+			apidrv.RunHelperLists(o, *maxList)
 			apidrv.RunAsync(o, *seed, *asyncReps)
 		}
 		o.Close()
